@@ -403,7 +403,7 @@ FUNCS = {
                                impl=impl_shelley_wallet, direct=direct_shelley_wallet),
     "cbor_indef_encode": Func(model=lambda m, a: m.call("cbor_indef_encode", list(a[0])),
                               impl=lambda a: CborIndefiniteLenArrayEncoder.Encode(a[0]),
-                              direct=lambda a: None if not a[0] or CborIndefiniteLenArrayDecoder.Decode(
+                              direct=lambda a: None if CborIndefiniteLenArrayDecoder.Decode(
                                   CborIndefiniteLenArrayEncoder.Encode(a[0])) == list(a[0]) else "indefinite array round trip"),
     "cbor_indef_decode": Func(model=lambda m, a: m.call("cbor_indef_decode", a[0]),
                               impl=lambda a: CborIndefiniteLenArrayDecoder.Decode(a[0])),
